@@ -641,12 +641,17 @@ def check_project(ctx, case, tag, project, g, hist, before, foreign, metadefs, m
             di = g.steps[dws]
             if role != "sandbox":
                 bids.append(bytes.fromhex(rec["build-id"]))
-            if rec["meta"].get("step") != di.label or (not is_foreign and rec["variant-id"] != di.vid):
+            # a dependency that was downloaded / taken from the share carries its producer's trail: artifacts are found by
+            # Build-Id, the producer's Variant-Id may legitimately differ (e.g. a variable that only enters the id of a
+            # checkout step whose sources are identical)
+            dep_foreign = rid in foreign
+            if rec["meta"].get("step") != di.label or (not is_foreign and not dep_foreign and rec["variant-id"] != di.vid):
                 fail("dependencies-wrong", "%s: %s is the %s step of %s with variant-id %s, the referenced record is a %s step of %s "
                      "with variant-id %s" % (what, role, di.label, di.pkgname, di.vid, rec["meta"].get("step"), rec["meta"].get("package"), rec["variant-id"]))
-            if is_foreign:
+            if is_foreign or dep_foreign:
                 if rec["variant-id"] != di.vid: ctx.label("foreign-result-with-other-variant-id")
-                continue
+                if is_foreign:
+                    continue
             cur = docs.get(dws)
             if cur is None:
                 continue
